@@ -103,6 +103,22 @@ def run_units(ctx):
         ctx.case(key=("unit", arg), nontrivial=any(x not in (None, False) for x in t),
                  cls=f"unit:cert={h2lib.CERT[t[0]]}:chk={t[1]}:ctx={int(t[6])}:{real.split('/')[0][:8]}",
                  sample={"sslopt": sslopt_arg(so), "env": env, "real": real} if len(ctx.samples) < 4 and t[0] is not None and t[4] else None)
+    # keys that are PRESENT with the value None (the pass-through idiom sslopt={"ca_certs": cfg.get("cafile"), ...}): the policy
+    # is the one of the absent key — in particular the environment's CA bundle still applies
+    for t in itertools.product(CERTS, CHECKS, CAFILES[:2], CAPATHS, ENVS[:4], SNIS[:2], CTXS):
+        so, env, isfile, isdir = mk(*t)
+        added = [k for k in ("ca_certs", "ca_cert_path", "server_hostname", "context") if k not in so]
+        if not added:
+            continue
+        arg = f"{sslopt_arg(so)} {tlsenv_arg(env, isfile, isdir)} {hx('url-host.example')}"
+        so = dict(so, **{k: None for k in added})
+        real, net = real_policy(so, env, isfile, isdir, "url-host.example")
+        lines_m.append("m-tls-policy " + arg)
+        lines_s.append("s-tls-policy " + arg)
+        obs.append(real)
+        ins.append({"sslopt": sslopt_arg(so), "keys_present_with_None": added, "env": env, "isfile": list(isfile), "isdir": list(isdir),
+                    "host": "url-host.example", "tuple": [str(x) for x in t]})
+        ctx.case(key=("unit-none", arg), nontrivial=True, cls=f"unit:none-valued-keys:cert={h2lib.CERT[t[0]]}:env={t[4][0] if t[4] else None}")
     # address-literal hosts (IPv4, IPv6): the same policy, the literal is the name that is checked
     for host in ("127.0.0.1", "10.1.2.3", "::1", "fe80::1", "1.2.3.4.example"):
         for t in itertools.product(CERTS, CHECKS, [None], [None], [None], SNIS[:2], [False]):
